@@ -64,6 +64,7 @@ def check_instructions(code, cd, codedata_mod, report, colines=None):
     ncell = len(code.co_cellvars)
     raw = code.co_code
     bad = 0
+    lookup = H.line_lookup(code)
     for i, (f, ins) in enumerate(zip(folded, flat)):
         op = f["opcode"]
         arg = ins.arg
@@ -110,7 +111,7 @@ def check_instructions(code, cd, codedata_mod, report, colines=None):
         else:
             if type(arg) is not int or arg != wrap_oparg(f["arg"]):
                 report("int operand", "%s decoded %r expected %r" % (where, arg, wrap_oparg(f["arg"]))); bad += 1
-        line = H.addr2line(code, f["start"])
+        line = lookup(f["start"])
         if colines is not None and colines.get(f["start"], "absent") != line:
             H.count("reference_disagreement:addr2line_vs_co_lines")
         if ins.line_number != line:
